@@ -66,6 +66,7 @@ class TableAll(Monitor):
         self.killed = []
         self.pushed = [Fraction(0)] * n
         self.unknown = False
+        self.tabled = set()
 
     def on_op(self, world, st, op):
         if not self.init:
@@ -86,7 +87,8 @@ class TableAll(Monitor):
             self.folded[op.player_index] = True
         elif t == 'HoleCardsShowingOrMucking':
             if op.hole_cards:
-                self.hands[op.player_index] = list(op.hole_cards)
+                self.hands[op.player_index] = [c for c in op.hole_cards if c]       # a partial show: the cards tabled
+                self.tabled.add(op.player_index)
             else:
                 self.mucked.append(op.player_index)
         elif t == 'HandKilling':
@@ -107,7 +109,7 @@ class TableAll(Monitor):
         live = [not f for f in self.folded]
         if sum(live) < 2:
             return
-        if any(c.unknown_status for i in range(n) if live[i] for c in self.hands[i]):
+        if any(c.unknown_status for i in range(n) if live[i] and i not in self.tabled for c in self.hands[i]):
             return
         boards = [list(st.get_board_cards(b)) for b in st.board_indices]
         types = [h.__name__ for h in st.hand_types]
